@@ -188,7 +188,8 @@ def s_ops(draw):
             c[2] = float(draw(st.integers(-50, 50)))
             c[5] = float(draw(st.integers(-50, 50)))
         P = {"T": c}
-    return {"gbox": gb, "op": op, "P": P}
+    # read the lazily cached views of the source first in half of the cases: derived boxes must not inherit them
+    return {"gbox": gb, "op": op, "P": P, "warm": draw(st.booleans())}
 
 
 def _cmp(out, shape, want: FA, gb_case, hint, what):
@@ -218,12 +219,36 @@ def _covers(out, gb_case, tol=1e-9):
         require(-tol <= x <= ox + tol and -tol <= y <= oy + tol, "derived box %r does not cover original corner %r (maps to pixel %.9g, %.9g)", tuple(out.shape), c, float(x), float(y))
 
 
+def _check_views_of(out, what):
+    """The derived box's own footprint and bounding box are the images of ITS pixel rectangle under ITS mapping
+    (whatever the source had cached)."""
+    Ao = FA.of(out.affine)
+    oy, ox = out.shape
+    corners = [(0, 0), (0, oy), (ox, oy), (ox, 0)]
+    img = [_ev(Ao, *c) for c in corners]
+    pts = out.extent.exterior.points
+    require(len(pts) == 5, "%s: extent of the result is not a 4-corner ring", what)
+    for (cx, cy), (wx, wy) in zip(corners, img):
+        tx, ty = _pt_tol(Ao, cx, cy)
+        ok = any(abs(x - float(wx)) <= tx and abs(y - float(wy)) <= ty for x, y in pts[:4])
+        require(ok, "%s: corner pixel %r of the result maps to %r but its extent is %r", what, (cx, cy), (float(wx), float(wy)), pts[:4])
+    bb = out.boundingbox
+    wxs = [float(w[0]) for w in img]
+    wys = [float(w[1]) for w in img]
+    tx = max(_pt_tol(Ao, *c)[0] for c in corners)
+    ty = max(_pt_tol(Ao, *c)[1] for c in corners)
+    require(abs(bb.left - min(wxs)) <= tx and abs(bb.right - max(wxs)) <= tx and abs(bb.bottom - min(wys)) <= ty and abs(bb.top - max(wys)) <= ty,
+            "%s: boundingbox of the result %r is not the min/max of its corner images", what, tuple(bb))
+
+
 def o_ops(case, T):
     from affine import Affine
     from odc.geo.geobox import GeoBox, scaled_down_geobox
 
     g = case["gbox"]
     gb = mk_geobox(g)
+    if case.get("warm"):
+        gb.extent, gb.boundingbox, gb.resolution  # noqa: B018 - fills whatever the source caches lazily
     A = FA.of(g["affine"])
     ny, nx = g["shape"]
     op, P = case["op"], case["P"]
@@ -385,6 +410,7 @@ def o_ops(case, T):
         _cmp(out, (ny, nx), A * FA.of(P["T"]), g, "float", "gbox*A")
     require(out.crs == gb.crs, "%s changed the CRS: %r -> %r", op, gb.crs, out.crs)
     require(isinstance(out, GeoBox), "%s returned %r", op, type(out))
+    _check_views_of(out, op)
     if _klass_nt(g["klass"], g["shape"]):
         T.nontrivial((op, g["klass"], _shape_class(g["shape"]), pclass, g["family"]))
     T.cls("op:" + op)
